@@ -1,1 +1,47 @@
-/-! C17 — property theorems (placeholder until the model exists). -/
+import EupsModel.Lemmas.Expand
+/-! C17 — an expanded table file reproduces the build-time versions exactly.  Property theorems only
+(the model is `Model/Expand.lean`, helper lemmas are in `Lemmas/Expand.lean`).
+
+`A : Answers` is what the environment told the expander (`pin` = the `-p prod=ver` pins, `sv` = `getSetupVersion`,
+`spv` = `findSetupProduct(..).version`, `deps` = `getDependencies(.., setup=True, shouldRaise=True)`); the
+correspondence check feeds the model with the answers the real `Eups` gave in the same process. -/
+namespace EupsModel.C17
+open EupsModel EupsModel.Expand
+
+/-- **Hypothesis `DepsSound`** (to be discharged by the models of C13 `getDependentProducts(setup=True)` and C01):
+every `(n, v)` a dependency listing with `setup=True` returns is the version of `n` that is set up. -/
+def DepsSound (A : Answers) : Prop :=
+  ∀ n v l, A.deps n v = .ok l → ∀ d ∈ l, A.sv d.name = some d.version
+
+/-- `C17_never_foreign`, unconditional part: whatever the environment answers, a `-j` pin written into the
+exact block names either a build-time record / `-p` pin, or an entry that `getDependencies` listed for a
+product of the table taken at its build-time record / pin.  Every graph, every table text, every option. -/
+theorem C17_never_foreign_sourced (A : Answers) (o : Opts) (lines : List Str) (items : List Item)
+    (h : expandItems A o lines = .ok items) (ind : Int) (opt : Bool) (n v : Str)
+    (hx : Item.pin ind opt n v ∈ items) : Sourced A o n v :=
+  pin_sourced h hx
+
+/-- `C17_never_foreign` (every graph, conflicts included): under `DepsSound`, every `-j v` line of the exact
+block names an `(n, v)` that was set up when the table was written (`getSetupVersion n = v`) or that the user
+pinned with `-p n=v`. -/
+theorem C17_never_foreign (A : Answers) (o : Opts) (lines : List Str) (items : List Item)
+    (hs : DepsSound A) (h : expandItems A o lines = .ok items) (ind : Int) (opt : Bool) (n v : Str)
+    (hx : Item.pin ind opt n v ∈ items) : Recorded A n v := by
+  rcases pin_sourced h hx with h1 | ⟨_, n0, v0, l, d, _, hl, hd, rfl, rfl⟩
+  · exact h1
+  · exact .inl (hs n0 v0 l hl d hd)
+
+/-- Without recursion (the call `eups distrib` makes, `recurse=False`) no hypothesis is needed: only the
+table's own products are pinned, each at its record or pin. -/
+theorem C17_never_foreign_toplevel (A : Answers) (o : Opts) (lines : List Str) (items : List Item)
+    (hr : o.recurse = false) (h : expandItems A o lines = .ok items) (ind : Int) (opt : Bool) (n v : Str)
+    (hx : Item.pin ind opt n v ∈ items) : Recorded A n v := by
+  rcases pin_sourced h hx with h1 | ⟨hrc, _⟩
+  · exact h1
+  · simp [hr] at hrc
+
+/-- The text of a pin item is the line `setupRequired(<name padded to 15> -j <version>)` (resp. `setupOptional`). -/
+theorem pin_text (ind : Int) (opt : Bool) (n v : Str) :
+    renderItem (.pin ind opt n v) = indentStr ind ++ strip (cmdName opt ++ [cLpar] ++ pad15 n ++ sJ ++ v ++ [cRpar]) := rfl
+
+end EupsModel.C17
